@@ -65,6 +65,7 @@ struct PlanOp
     int64_t stream_fail_after = -1; int stream_fail_mode = 0;
     int64_t alloc_fail_at = -1;
     int64_t lex_fail_call = -1;
+    int64_t nest_at = -1;          // C15 re-entrancy: functor call #nest_at of this op makes the task's next op itself
 };
 
 struct PlanTask { std::vector<PlanOp> ops; };
